@@ -23,11 +23,26 @@ def cfgs_for(ctx, big=False):
         out.append(configs.C("ast-limit%d" % lim, renderer="ast", max_nested=lim))
         out.append(configs.C("ast-limit%d-plugins" % lim, renderer="ast", plugins=["spoiler", "def_list", "footnotes", "task_lists"], max_nested=lim))
         out.append(configs.C("ast-limit%d-ctor" % lim, renderer="ast", max_nested=lim, max_nested_how="ctor"))
-        out.append(configs.C("ast-limit%d-fenced" % lim, renderer="ast", directives="fenced", max_nested=lim))
+        out.append(configs.C("ast-limit%d-fenced" % lim, renderer="ast", plugins=["def_list", "spoiler", "footnotes"], directives="fenced", max_nested=lim))
+        out.append(configs.C("ast-limit%d-rst" % lim, renderer="ast", plugins=["def_list", "table"], directives="rst", max_nested=lim))
     for _ in range(3 if not big else 25):
         c = configs.random_cfg(ctx.rng, html_only=True)
         c["renderer"] = "ast"; c["name"] = "ast-rand"
         out.append(c)
+    return out
+
+
+def nest_docs(rng, k):
+    """containers, then a directive, then a definition list, then containers again (every step may re-open the nesting count)"""
+    out = []
+    for _ in range(k):
+        pre = "".join(rng.choice(["> ", "> ", "- ", "1. "]) for _ in range(rng.randint(0, 6)))
+        cont = " " * len(pre) if any(c in pre for c in "-1") else pre
+        # continuation prefix: quotes repeat their marker, list items are indented
+        cont = "".join(("> " if m == ">" else " " * (len(m) + 1)) for m in pre.split())
+        inner = "".join(rng.choice(["- ", "> ", "1. "]) for _ in range(rng.randint(1, 7))) + "deep"
+        lines = ["```{note} T", "term", ":   " + inner, "```"] if rng.random() < 0.6 else ["```{note}", inner, "```"] if rng.random() < 0.5 else ["term", ":   " + inner]
+        out.append("\n".join((pre if i == 0 else cont) + l for i, l in enumerate(lines)) + "\n")
     return out
 
 
@@ -41,7 +56,11 @@ def oracle(ctx, docs, cfgs):
     n = 0
     mds = [(c, configs.make(c)) for c in cfgs]
     for d in docs:
-        for c, md in ctx.rng.sample(mds, 2):
+        pick = ctx.rng.sample(mds, 2)
+        if "```{" in d or ".. " in d or "\n:   " in d:
+            # documents with directive / definition-list syntax: also the limit configurations that know that syntax
+            pick += ctx.rng.sample([x for x in mds if "limit" in x[0]["name"] and (x[0].get("directives") or "plugins" in x[0]["name"])] or mds, 2)
+        for c, md in pick:
             try:
                 toks = md(d)
             except RecursionError:
@@ -111,7 +130,7 @@ def lean_grammar_agrees(ctx, docs, cfgs):
 def run(ctx):
     ctx.broken += common.proof_stage(ctx, THEOREMS)
     q = ctx.quick()
-    docs = EXTRA + [gen.md_any(ctx.rng, 8) for _ in range(2500 if q else 30000)] + [gen.md_nested(ctx.rng) for _ in range(400 if q else 4000)]
+    docs = EXTRA + nest_docs(ctx.rng, 400 if q else 4000) + [gen.md_any(ctx.rng, 8) for _ in range(2500 if q else 30000)] + [gen.md_nested(ctx.rng) for _ in range(400 if q else 4000)]
     cfgs = cfgs_for(ctx)
     common.model_tie(ctx, docs, 'core', 'doc', limit=(1200 if ctx.quick() else 12000))
     common.model_tie(ctx, docs[::3], 'core-hardwrap', 'doc', limit=(400 if ctx.quick() else 4000))
